@@ -239,6 +239,18 @@ PlatformAttrOf(p, order) == UNION {Run(ents[order[j]]).attr : j \in {k \in 1..Le
 \* C06 (design level): the report identities hold for the attribution of every generated scenario
 ReportLaws == (Ready /\ WithReports) => (RepOut(PlatSetOf).laws /\ RepOut({}).laws)
 
+\* C10 (design level): excluding any set X of code-base files removes exactly X's lines from the
+\* platform-set table; the attribution itself is computed by a machine that has no notion of
+\* membership, so nothing else can change.
+ExclusionAdditive ==
+  (Ready /\ WithReports) =>
+     LET L == RealLines(PlatSetOf) IN
+     \A X \in SUBSET FilesOf(L) :
+        LET rest == {l \in L : l.f \notin X} gone == {l \in L : l.f \in X} IN
+        /\ Sloc(rest) + Sloc(gone) = Sloc(L)
+        /\ \A S \in DOMAIN Tab(L) :
+              (IF S \in DOMAIN Tab(rest) THEN Tab(rest)[S] ELSE 0) + (IF S \in DOMAIN Tab(gone) THEN Tab(gone)[S] ELSE 0) = Tab(L)[S]
+
 OrderIndependent == Ready => \A p \in {Plats[i] : i \in 1..Len(Plats)} :
    PlatformAttrOf(p, [i \in 1..Len(ents) |-> i]) = PlatformAttrOf(p, [i \in 1..Len(ents) |-> Len(ents) + 1 - i])
 ==========================================================================
